@@ -127,7 +127,8 @@ def main(pid, tier='quick', seed=0, replay=None, nworkers=None,
   t0 = time.time()
   check = load_check(pid)
   known = load_known()
-  evid_path = os.path.join(HERE, 'evidence', '%s.json' % pid)
+  evid_path = os.path.join(os.environ.get('VERIF_EVIDENCE_DIR') or
+                           os.path.join(HERE, 'evidence'), '%s.json' % pid)
   os.makedirs(os.path.dirname(evid_path), exist_ok=True)
 
   if replay:
@@ -200,7 +201,8 @@ def main(pid, tier='quick', seed=0, replay=None, nworkers=None,
         unlisted.append((spec, v))
 
   # replay files for unlisted violations
-  rep_dir = os.path.join(HERE, 'replays', pid)
+  rep_dir = os.path.join(os.environ.get('VERIF_REPLAY_DIR') or
+                         os.path.join(HERE, 'replays'), pid)
   lines = []
   seen_specs = {}
   for spec, v in unlisted:
